@@ -160,6 +160,72 @@ def run_score(sc):
             'mutated': [i for i, m in msgs.items() if m != ['/n_set', 1, 'k', i]]}
 
 
+def run_sched(sc):
+    """The real ClockScheduler driven directly with stand-in ClockTasks (attributes clock, task, beats, _wakeup):
+    init ops, then run(); the k-th wake-up performs chunk k.  Returns the FLAT history over the alphabet of
+    coq/model/ClockSched.v (with the values beats2secs returned during each retime), its outputs and the final state."""
+    from sc3.base.clock import ClockScheduler
+    sch = ClockScheduler()
+
+    class Clock:
+        def __init__(self, cid):
+            self.cid, self.mul, self.off, self.seen = cid, Fr(1), Fr(0), None
+
+        def beats2secs(self, beats):
+            v = float(Fr(beats) * self.mul + self.off)
+            return v
+    class Task:
+        pass
+    clocks, tasks = {}, {}
+    ops, outs, chunks = [], [], [list(c) for c in sc['chunks']]
+
+    class CT:
+        def __init__(self, i, cid, tid):
+            self.i = i
+            self.clock = clocks.setdefault(cid, Clock(cid))
+            self.task = tasks.setdefault(tid, Task())
+            self.beats = 0.0
+
+        def _wakeup(self, time):
+            ops.append(['step']); outs.append(['T', str(Fr(time)), self.i])
+            for o in (chunks.pop(0) if chunks else []):
+                do(o)
+    cts = {i + 1: CT(i + 1, c, t) for i, (c, t) in enumerate(sc['cts'])}
+    R = type(sch.queue)._REMOVED
+
+    def do(o):
+        if o[0] == 'add':
+            ct = cts[o[2]]
+            ct.beats = float(Fr(o[1]))
+            sch.add(ct.clock.beats2secs(ct.beats), ct)
+            ops.append(['add', str(Fr(ct.clock.beats2secs(ct.beats))), o[2]]); outs.append(['N'])
+        elif o[0] == 'retime':
+            clk = clocks.setdefault(o[1], Clock(o[1]))
+            clk.mul, clk.off = Fr(o[2]), Fr(o[3])
+            sch.retime(clk)
+            f = [[i, str(Fr(ct.clock.beats2secs(ct.beats)))] for i, ct in cts.items() if ct.clock is clk]
+            ops.append(['retime', o[1], f]); outs.append(['N'])
+        elif o[0] == 'reset':
+            sch.reset(); ops.append(['reset']); outs.append(['N'])
+        else:
+            ops.append(['iter']); outs.append(['L', [[str(Fr(p)), ct.i] for p, ct in list(sch.queue)]])
+    for o in sc['init']:
+        do(o)
+    sch.run()
+    ops.append(['step']); outs.append(['B', True])            # the loop condition failed: run() returned
+    q = sch.queue
+    import copy
+    st = [len(q._queue), int(q._removed_counter), int(next(copy.copy(q._counter))), sum(1 for e in q._queue if e[2] is R)]
+    for ct, e in sorted(((ct.i, e) for ct, e in q._entry_finder.items())):
+        st += [ct, int(e[1])]
+    for e in sorted((e for e in q._queue if e[2] is not R), key=lambda e: (e[0], e[1])):
+        st += [int(e[1]), e[2].i]
+    for cid, tid, i in sorted((ct.clock.cid, [k for k, v in tasks.items() if v is ct.task][0], ct.i) for ct in sch._pending.values()):
+        st += [cid, tid, i]
+    keys_ok = all(k == (id(ct.clock), id(ct.task)) for k, ct in sch._pending.items())
+    return {'ops': ops, 'outs': outs, 'state': st if keys_ok else None}
+
+
 def run_ppar(sc):
     from sc3.seq import event as evt
     from sc3.seq.patterns.eventpatterns import Pbind, Ppar
@@ -186,7 +252,7 @@ def main_():
     out = []
     for sc in spec['scenarios']:
         try:
-            out.append({'clock': run_clock, 'score': run_score, 'ppar': run_ppar}[sc['kind']](sc))
+            out.append({'clock': run_clock, 'score': run_score, 'ppar': run_ppar, 'sched': run_sched}[sc['kind']](sc))
         except BaseException as e:          # never let one scenario kill the run
             out.append({'error': '%s: %s' % (type(e).__name__, e)})
     try:
